@@ -36,12 +36,32 @@ func mutateSweep(id string, jobs int, only string) error {
 	if err != nil {
 		return err
 	}
-	f := registry[id]
-	if f == nil {
-		return fmt.Errorf("no check %s", id)
-	}
 	c := &Check{ID: id, Tier: "quick", W: w, Funcs: map[string]bool{}}
-	runProp(c, f)
+	if id == "all" {
+		// global sweep: union of the anchor functions of every property; a survivor is a mutant
+		// that NO property's rules report
+		var ids []string
+		for k := range registry {
+			ids = append(ids, k)
+		}
+		sort.Strings(ids)
+		for _, k := range ids {
+			ck := &Check{ID: k, Tier: "quick", W: w, Funcs: map[string]bool{}}
+			runProp(ck, registry[k])
+			for a := range ck.Anchors {
+				c.Funcs[a] = true
+			}
+		}
+	} else {
+		f := registry[id]
+		if f == nil {
+			return fmt.Errorf("no check %s", id)
+		}
+		runProp(c, f)
+		if os.Getenv("MIXVET_MUT_ANCHORS") != "" {
+			c.Funcs = c.Anchors
+		}
+	}
 	// functions analysed -> syntax
 	type fsyn struct {
 		name string
@@ -141,6 +161,21 @@ func mutateSweep(id string, jobs int, only string) error {
 		})
 	}
 	fmt.Printf("%s: %d functions analysed, %d mutants\n", id, len(fs), len(muts))
+	if os.Getenv("MIXVET_MUT_DRY") != "" {
+		perFn := map[string]int{}
+		for _, m := range muts {
+			perFn[m.Func]++
+		}
+		var names []string
+		for k := range perFn {
+			names = append(names, k)
+		}
+		sort.Strings(names)
+		for _, k := range names {
+			fmt.Printf("%4d %s\n", perFn[k], k)
+		}
+		return nil
+	}
 	self, _ := os.Executable()
 	type res struct {
 		m      mutant
@@ -168,6 +203,15 @@ func mutateSweep(id string, jobs int, only string) error {
 			st := "SURVIVED"
 			if err != nil {
 				st = "killed"
+				if id == "all" {
+					var by []string
+					for _, l := range strings.Split(string(out), "\n") {
+						if strings.Contains(l, " tier=") && !strings.Contains(l, "violations=0") {
+							by = append(by, strings.Fields(l)[0])
+						}
+					}
+					st = "killed:" + strings.Join(by, ",")
+				}
 				if strings.Contains(string(out), "load error") || strings.Contains(string(out), "load/type errors") {
 					st = "invalid"
 				}
@@ -178,7 +222,19 @@ func mutateSweep(id string, jobs int, only string) error {
 	wg.Wait()
 	n := map[string]int{}
 	for _, r := range results {
-		n[r.status]++
+		k := r.status
+		if strings.HasPrefix(k, "killed") {
+			k = "killed"
+		}
+		n[k]++
+	}
+	if id == "all" {
+		for _, r := range results {
+			if strings.HasPrefix(r.status, "killed:") {
+				rel := strings.TrimPrefix(r.m.File, w.Dir+"/")
+				fmt.Printf("KILLED\t%s\t%s:%d\t%s\t%s\n", strings.TrimPrefix(r.status, "killed:"), rel, r.m.Pos.Line, r.m.Func, r.m.Op)
+			}
+		}
 	}
 	fmt.Printf("%s: killed=%d survived=%d invalid=%d in %.0fs\n", id, n["killed"], n["SURVIVED"], n["invalid"], time.Since(start).Seconds())
 	for _, r := range results {
